@@ -1009,3 +1009,23 @@ Proof.
   exists (mkObj tV tJ false [[1]; [1]] (JA [(1, 11); (1, 11)]) 0 0 None), (mkObj tV tJ true [[1]] (JS (1, 11)) 0 0 None).
   split; [reflexivity|]. split; [cbn; discriminate|reflexivity].
 Qed.
+
+(* equality on instants (jd1 + jd2) against a hash of the separate parts: same instant, other split *)
+Definition inst_eqb (a b : tJ) : bool := (fst a + snd a) =? (fst b + snd b).
+
+Lemma eq_instant_no_hash :
+  exists a b : obj tV tJ, eq_spec tV tJ inst_eqb a b = true /\ hash_model tV tJ a <> hash_model tV tJ b.
+Proof.
+  exists (mkObj tV tJ false [[1]] (JA [(10, 5)]) 0 0 None), (mkObj tV tJ false [[1]] (JA [(9, 6)]) 0 0 None).
+  split; [reflexivity|cbn; discriminate].
+Qed.
+
+(* ... and the law holds again when the hash goes through the instant *)
+Lemma eq_instant_hash_instant (a b : obj tV tJ) :
+  eq_spec tV tJ inst_eqb a b = true ->
+  map (fun j => fst j + snd j) (hash_model tV tJ a) = map (fun j => fst j + snd j) (hash_model tV tJ b).
+Proof.
+  apply (eq_hash_spec tV tJ inst_eqb (fun j => fst j + snd j)).
+  intros x y H. unfold inst_eqb in H. now apply Z.eqb_eq in H.
+Qed.
+
